@@ -1,0 +1,24 @@
+//go:build verif
+
+package utils
+
+// Verification hooks (build tag "verif"): trace and yield points for the external
+// verification harness. They add no behaviour of their own.
+
+// VerifTrace, when set, is called at trace points (possibly inside critical sections: it must not block).
+var VerifTrace func(point, key string)
+
+// VerifYield, when set, is called at yield points (never inside a critical section: it may park the goroutine).
+var VerifYield func(point, key string)
+
+func verifTrace(point, key string) {
+	if h := VerifTrace; h != nil {
+		h(point, key)
+	}
+}
+
+func verifYield(point, key string) {
+	if h := VerifYield; h != nil {
+		h(point, key)
+	}
+}
